@@ -6,6 +6,7 @@ import (
 	"fmt"
 	"go/ast"
 	"go/parser"
+	"go/scanner"
 	"go/token"
 	"math/rand"
 	"os"
@@ -236,6 +237,39 @@ var damages = []damage{
 	}},
 }
 
+// gapInputs returns src with "/* c */", " // c\n" or "\n" inserted behind every step-th token.
+func gapInputs(src []byte, off, step int) [][]byte {
+	var ends []int
+	fset := token.NewFileSet()
+	file := fset.AddFile("", -1, len(src))
+	var sc scanner.Scanner
+	sc.Init(file, src, nil, scanner.ScanComments)
+	for {
+		pos, tok, lit := sc.Scan()
+		if tok == token.EOF {
+			break
+		}
+		if tok == token.SEMICOLON && lit == "\n" || tok == token.COMMENT {
+			continue
+		}
+		n := len(lit)
+		if n == 0 {
+			n = len(tok.String())
+		}
+		ends = append(ends, file.Offset(pos)+n)
+	}
+	var out [][]byte
+	for i, e := range ends {
+		if i%step != off || i == len(ends)-1 {
+			continue
+		}
+		for _, ins := range []string{"/* c */", " // c\n", "\n"} {
+			out = append(out, append(append(append([]byte{}, src[:e]...), ins...), src[e:]...))
+		}
+	}
+	return out
+}
+
 var c15Fixed = [][]byte{
 	[]byte(""), []byte("\n"), []byte(" \t\n\n"), []byte("// c\n"), []byte("/* c */"), []byte("func f(){}"), []byte("package"), []byte("package p"),
 	[]byte("package p;"), []byte("package p; func"), []byte("x"), []byte("package p\nfunc f() {"), []byte("package p\nvar x = "), []byte("package p\nimport"),
@@ -299,6 +333,26 @@ func checkC15(c *Ctx) {
 			d := damages[r.Intn(len(damages))]
 			inputs = append(inputs, d.Fn(src, r))
 			names = append(names, d.Name+"|"+f.Path+fmt.Sprintf("#%d", k))
+		}
+	}
+	// legal input in unusual layouts: a block comment, a line comment or a line break in every gap
+	// between two adjacent tokens of every template fragment (most stay legal Go; all must be handled)
+	if tsrc, err := templateSrc(); err == nil {
+		if ms, err := miniFiles(tsrc); err == nil {
+			step := 1
+			if c.Quick() {
+				step = 2
+			}
+			for mi, m := range ms {
+				var buf bytes.Buffer
+				if decorator.Fprint(&buf, dst.Clone(m).(*dst.File)) != nil {
+					continue
+				}
+				for gi, in := range gapInputs(buf.Bytes(), (mi+int(c.Seed))%step, step) {
+					inputs = append(inputs, in)
+					names = append(names, fmt.Sprintf("token-gap|fragment%d#%d", mi, gi))
+				}
+			}
 		}
 	}
 	obs := make([][]c15Obs, len(inputs))
